@@ -250,6 +250,10 @@ func dumpParaReadable(p control.Paragraph) string {
 var fieldNames = []string{"Package", "Version", "Description", "Depends", "X-Foo", "a", "Files", "Checksums-Sha256", "Build-Depends", "Z"}
 
 func genLineText(r *core.Rand) string {
+	if r.Chance(1, 150) {
+		// longer than bufio's 4096-byte buffer (and than two of them)
+		return strings.Repeat(r.Pick([]string{"pkg-name, ", "x", "ab cd "}), r.Pick2(700, 1500)) + "end"
+	}
 	switch r.Intn(6) {
 	case 0:
 		return ""
